@@ -12,6 +12,17 @@ from .expr import ExprMixin
 from .stmt import StmtMixin, assigned_names
 
 
+def _has_quantifier(e, _seen=None):
+    if z3.is_quantifier(e):
+        return True
+    if _seen is None:
+        _seen = set()
+    if e.get_id() in _seen:
+        return False
+    _seen.add(e.get_id())
+    return any(_has_quantifier(c, _seen) for c in e.children())
+
+
 class Interp(ExprMixin, StmtMixin):
     BUILTINS = {"len", "all", "any", "tuple", "list", "isinstance", "getattr", "hasattr", "sorted", "enumerate",
                 "zip", "str", "bool", "set", "dict", "print", "callable", "type", "int", "repr", "issubclass",
@@ -83,17 +94,18 @@ class Interp(ExprMixin, StmtMixin):
         g = st.wrap(goal)
         ob = Obligation(name, self.contract.target, line, list(st.pc), g, tuple(st.decisions), clause)
         self.obligations.append(ob)
-        st.pc.append(g)
+        if not _has_quantifier(g):
+            st.pc.append(g)
 
     # ------------------------------------------------------------- spec evaluation
-    def spec_eval(self, clause, extra_env=None, old_heap=None):
+    def spec_eval(self, clause, extra_env=None, old_heap=None, clean=False):
         st = self.st
         tree = self._spec_cache.get(clause)
         if tree is None:
             tree = ast.parse(clause.strip(), mode="eval").body
             self._spec_cache[clause] = tree
         saved_env = st.env
-        st.env = dict(st.env)
+        st.env = {} if clean else dict(st.env)
         if extra_env:
             st.env.update(extra_env)
         st.spec_mode += 1
@@ -300,11 +312,13 @@ class Interp(ExprMixin, StmtMixin):
             order = order[1:]
         if c.pure:
             argterms = [as_v(env[n]) for n in order if n in env]
-            F = L.fn("F_" + c.target, *([L.V] * (len(argterms) + 1)))
-            rterm = F(*argterms) if argterms else L.const("F0_" + c.target)
+            rs = {"strp": L.S, "int": L.I, "bool": L.B}.get(c.result, L.V)
+            F = L.fn("F_" + c.target, *([L.V] * len(argterms) + [rs]))
+            rterm = F(*argterms) if argterms else L.const("F0_" + c.target, rs)
         else:
-            rterm = L.fresh("r_" + short)
-        result = self.retag(rterm, c.result)
+            rs = {"strp": L.S, "int": L.I, "bool": L.B}.get(c.result, L.V)
+            rterm = L.fresh("r_" + short, rs)
+        result = {"strp": ZS, "int": ZI, "bool": ZB}[c.result](rterm) if c.result in ("strp", "int", "bool") else self.retag(rterm, c.result)
         if constructor:
             result = ZV(rterm, c.result)
         if in_spec:
@@ -338,7 +352,11 @@ class Interp(ExprMixin, StmtMixin):
         env2["result"] = result
         for nme, clause in c.lets.items():
             env2[nme] = self.spec_eval_in(clause, env2, heap_before, eff_before)
+        if c.result == "str":
+            st.assume(L.is_str(rterm))
         for label, clause in c.ensures.items():
+            if label in c.hide:
+                continue
             st.assume(as_bool(self.spec_eval_in(clause, env2, heap_before, eff_before)))
         return result
 
@@ -648,6 +666,7 @@ class Interp(ExprMixin, StmtMixin):
         c = self.contract
         st = State(prefix)
         self.st = st
+        L._fresh[0] = 0      # deterministic names per path prefix: shared prefixes give identical terms (dedupe)
         self.effects0 = st.effects = L.const("eff0")
         self.yielded = ZV(L.EMPTY_SEQ, "seq")
         self.body_raised = False
@@ -721,15 +740,15 @@ class Interp(ExprMixin, StmtMixin):
         if c.pure and not self.is_ctxmgr:
             # tie the result to the function symbol callers see
             pass
-        env.update({k: v for k, v in st.env.items() if k.startswith("ghost_")})
+        env.update({"L_" + k: v for k, v in st.env.items()})
         for nme, clause in c.lets.items():
-            env[nme] = self.spec_eval(clause, env)
+            env[nme] = self.spec_eval(clause, env, clean=True)
         line = self.cur_line
         which = c.ensures
         if self.is_ctxmgr and self.body_raised:
             which = c.ensures_exc
         for label, clause in which.items():
-            g = as_bool(self.spec_eval(clause, env))
+            g = as_bool(self.spec_eval(clause, env, clean=True))
             self.oblige(label, g, line, clause=clause)
 
     def check_raise(self, r):
